@@ -65,6 +65,7 @@ fn run(ctx: &Arc<Ctx>) {
     ctx.run_generated("beyond", "rs", ctx.cases(80_000, 8_000_000), || g_error_pattern(Radius::Beyond), check);
     ctx.run_generated("near-miss", "rs", ctx.cases(30_000, 2_000_000), g_near_miss, check);
     ctx.run_generated("syndrome-pattern", "rs", ctx.cases(60_000, 4_000_000), g_syndrome_pattern, check);
+    ctx.run_generated("constrained-values", "rs", ctx.cases(80_000, 3_000_000), || g_constrained_values(Radius::Beyond), check);
     ctx.run_generated("zero-prefix", "rs", ctx.cases(40_000, 3_000_000), g_zero_syndrome_prefix, check);
 }
 
